@@ -2,8 +2,8 @@
    schedule-independent primitives, hence schedule independent: closed forms on the data. *)
 From Coq Require Import List NArith Arith Bool Lia.
 From NV Require Import Io.Source Io.ReadExact Io.ReadExactProofs Io.BufReader Io.BufReaderProofs
-  Io.FastaIndex Io.FastaIndexProofs Io.Run.
-From NV Require Fasta.Layout Fasta.Indexer.
+  Io.FastaIndex Io.FastaIndexProofs Io.FastqRead Io.FastqReadProofs Io.HeaderRead Io.HeaderReadProofs Io.BgzfRead Io.BgzfReadProofs Io.BedRead Io.BedReadProofs Io.TabRead Io.TabReadProofs Io.Run.
+From NV Require Fasta.Layout Fasta.Indexer Fasta.Fastq Text.TextBase Text.BedRec.
 Import ListNotations.
 
 Lemma rep_src_fuel : forall s d m n, rep_src s d m -> m + n < src_fuel s n.
@@ -125,4 +125,104 @@ Proof.
   - exists data. cbn [fst snd app]. split; [reflexivity|]. split; reflexivity.
   - lia.
   - unfold b_fuel, src_fuel. cbn [fst snd s_data s_script length]. lia.
+Qed.
+
+(* ---- the FASTQ record reader on a scripted source behind a BufReader: C11's read_qfile *)
+Theorem run_fastq_spec : forall data sc cap, 1 <= cap ->
+  exists st', run_fastq cap (mkSource data sc) = (Fastq.read_qfile data, st').
+Proof.
+  intros data sc cap Hcap. unfold run_fastq, Fastq.read_qfile. cbn [s_data].
+  apply (d_read_qrecs_spec src_read rep_src src_simulates cap Hcap _ _ ([], mkSource data sc) data
+           (n_interrupted sc)).
+  - exists data. cbn [fst snd app]. split; [reflexivity|]. split; reflexivity.
+  - unfold b_fuel, src_fuel. cbn [fst snd s_data s_script length]. lia.
+Qed.
+
+Theorem run_fastq_index_spec : forall data sc cap, 1 <= cap ->
+  exists st', run_fastq_index cap (mkSource data sc) = (Fastq.index_qfile data, st').
+Proof.
+  intros data sc cap Hcap. unfold run_fastq_index, Fastq.index_qfile. cbn [s_data].
+  apply (d_index_qrecs_spec src_read rep_src src_simulates cap Hcap _ _ ([], mkSource data sc) data
+           (n_interrupted sc) 0%N).
+  - exists data. cbn [fst snd app]. split; [reflexivity|]. split; reflexivity.
+  - unfold b_fuel, src_fuel. cbn [fst snd s_data s_script length]. lia.
+Qed.
+
+(* ---- SAM / VCF header reader on a scripted source behind a BufReader *)
+Theorem run_header_lines_spec : forall prefix data sc cap, 1 <= cap ->
+  exists st' m' e,
+    h_raw_lines src_read cap prefix (Datatypes.S (length data)) (b_fuel ([], mkSource data sc) 0) true
+      ([], mkSource data sc)
+    = (fst (hdr_closed (Datatypes.S (length data)) prefix data), UOk, e, st')
+    /\ rep_buf rep_src st' (snd (hdr_closed (Datatypes.S (length data)) prefix data)) m'.
+Proof.
+  intros prefix data sc cap Hcap.
+  destruct (h_raw_lines_spec src_read rep_src src_simulates cap Hcap prefix (Datatypes.S (length data))
+              (b_fuel ([], mkSource data sc) 0) true ([], mkSource data sc) data (n_interrupted sc))
+    as [st' [m' [e [E [HR _]]]]].
+  - exists data. cbn [fst snd app]. split; [reflexivity|]. split; reflexivity.
+  - lia.
+  - unfold b_fuel, src_fuel. cbn [fst snd s_data s_script length]. lia.
+  - left. reflexivity.
+  - exists st', m', e. split; [exact E|exact HR].
+Qed.
+
+(* ---- bgzf Reader: the blocks, their offsets, the final position and the final result are those
+   of the whole-buffer reader on the data — for the raw source and behind any BufReader *)
+Theorem run_bgzf_spec : forall inflate data sc cap,
+  run_bgzf inflate cap (mkSource data sc) = whole_bgzf inflate data.
+Proof.
+  intros inflate data sc cap. unfold run_bgzf, whole_bgzf. cbn [s_data].
+  destruct cap as [|c].
+  - destruct (d_read_frames_spec src_read rep_src src_simulates inflate (Datatypes.S (length data))
+                (src_fuel (mkSource data sc) 18) (mkSource data sc) data (n_interrupted sc))
+      as [s' E].
+    + split; reflexivity.
+    + unfold src_fuel. cbn [s_data s_script]. lia.
+    + rewrite E. reflexivity.
+  - destruct (d_read_frames_spec (br_read src_read (Datatypes.S c)) (rep_buf rep_src)
+                (br_simulates src_read rep_src src_simulates (Datatypes.S c) ltac:(lia))
+                inflate (Datatypes.S (length data))
+                (b_fuel ([], mkSource data sc) 18) ([], mkSource data sc) data (n_interrupted sc))
+      as [s' E].
+    + exists data. cbn [fst snd app]. split; [reflexivity|]. split; reflexivity.
+    + unfold b_fuel, src_fuel. cbn [fst snd s_data s_script length]. lia.
+    + rewrite E. reflexivity.
+Qed.
+
+(* ---- the BED record reader on a scripted source behind a BufReader: the whole-buffer closed form *)
+Theorem run_bed_spec : forall n j data sc cap, 1 <= cap ->
+  exists st', run_bed n j cap (mkSource data sc)
+              = (w_bed_read_raw j n data (BedRec.bed_default n), st').
+Proof.
+  intros n j data sc cap Hcap. unfold run_bed.
+  apply (d_bed_read_raw_spec src_read rep_src src_simulates cap Hcap j n _ _ ([], mkSource data sc) data
+           (n_interrupted sc)).
+  - exists data. cbn [fst snd app]. split; [reflexivity|]. split; reflexivity.
+  - unfold src_fuel. cbn [s_data s_script]. lia.
+  - unfold b_fuel, src_fuel. cbn [fst snd s_data s_script length]. lia.
+Qed.
+
+(* ---- the lazy SAM record reader, all records: the closed form iterated on the data *)
+Theorem run_sam_records_spec : forall data sc cap, 1 <= cap ->
+  exists st', run_sam_records cap (mkSource data sc)
+              = (fst (tab_loop w_sam_read_record (Datatypes.S (length data)) data), st').
+Proof.
+  intros data sc cap Hcap. unfold run_sam_records. cbn [s_data].
+  set (fuel := b_fuel ([], mkSource data sc) 1).
+  assert (Hgen : forall j st d m, rep_buf rep_src st d m -> m + length d + 2 < fuel ->
+            exists st', tab_loop (d_sam_read_record src_read cap fuel) j st
+                        = (fst (tab_loop w_sam_read_record j d), st')).
+  { induction j as [|j IH]; intros st d m HR Hf.
+    - exists st. reflexivity.
+    - cbn [tab_loop].
+      destruct (d_sam_read_record_spec src_read rep_src src_simulates cap Hcap fuel st d m HR Hf)
+        as [st1 [m1 [E [HR1 [Hm1 Hl1]]]]].
+      rewrite E. destruct (w_sam_read_record d) as [[[r b] e] rest]. cbn [fst snd] in *.
+      destruct r as [[|q]|err|]; try (exists st1; reflexivity).
+      destruct (IH st1 rest m1 HR1 ltac:(lia)) as [st2 E2]. rewrite E2.
+      destruct (tab_loop w_sam_read_record j rest) as [l r']. exists st2. reflexivity. }
+  apply (Hgen _ ([], mkSource data sc) data (n_interrupted sc)).
+  - exists data. cbn [fst snd app]. split; [reflexivity|]. split; reflexivity.
+  - unfold fuel, b_fuel, src_fuel. cbn [fst snd s_data s_script length]. lia.
 Qed.
